@@ -1,6 +1,7 @@
 import Seccomp.Model.Spec
 import Seccomp.Model.Oracle
 import Seccomp.Gen.Tables
+import Seccomp.Model.Arch
 import Seccomp.Driver.Disasm
 import Std.Data.HashMap
 import Seccomp.Driver.Loader
@@ -329,6 +330,14 @@ def handle (A : Arches) (line : String) : String :=
      | _ => "BAD-REQUEST")
   | "K" :: rest => Driver.Raw.handleK rest
   | "D" :: rest => DisasmDriver.handle rest
+  | ["GI", g, n] =>
+    -- the reference `Arch.getInfo` (C12): GI <hex GOARCH> <hex name>  →  OK <Info.Name> <table length> | ERR <hex key> | NOT-UTF8
+    (match stringOfHex g, stringOfHex n with
+     | some goarch, some name =>
+       (match Arch.getInfo goarch name with
+        | .ok r => s!"OK {r.name} {(Arch.tableOf r.table).length}"
+        | .error (.unsupported key) => s!"ERR {hexOfString key}")
+     | _, _ => "NOT-UTF8")
   | "TXT" :: rest => Driver.Text.handle rest
   | "CACHE" :: rest => Driver.Cache.handle rest
   | "F" :: rest => Driver.Profile.handle (fun a => (A.infos.get? a).map (·.lookup)) rest
